@@ -1204,6 +1204,7 @@ func TestC16_MaskedFields(t *testing.T) {
 // ---- C17 ---------------------------------------------------------------------------------------------------
 
 type c17Matcher struct {
+	FailPath string     `json:"fail_path,omitempty"` // the path that must be named (default: the matcher's first path)
 	Spec    MatcherSpec `json:"matcher"`
 	Failing bool        `json:"failing"` // must be named in the error
 	Ignored bool        `json:"ignored"` // missing path under ErrOnMissingPath(false)
@@ -1212,6 +1213,7 @@ type c17Matcher struct {
 }
 
 type c17Case struct {
+	NoExisting bool       `json:"no_existing_entry,omitempty"` // ci / update_false: the slot of the call under test holds nothing
 	Suffix   string       `json:"yaml_suffix,omitempty"` // yaml: appended to the document ("---\n": a trailing empty document)
 	Empty    *string      `json:"yaml_empty_doc,omitempty"` // yaml: the whole document is this (empty) text; every matcher path is missing
 	Kind     string       `json:"kind"` // json | sjson | yaml
@@ -1242,7 +1244,7 @@ func wrongType(n JNode, yamlDoc bool) string {
 
 func genC17(t *rapid.T) c17Case {
 	c := c17Case{Kind: rapid.SampledFrom([]string{"json", "json", "sjson", "yaml"}).Draw(t, "kind"), Test: genTestName(t),
-		ModeKind: rapid.SampledFrom([]string{"create", "update_existing", "update_false", "ci"}).Draw(t, "mode"),
+		ModeKind: rapid.SampledFrom([]string{"create", "update_existing", "update_false", "ci"}).Draw(t, "mode"), NoExisting: rapid.IntRange(0, 2).Draw(t, "noexisting") == 0,
 		Before:   rapid.IntRange(0, 2).Draw(t, "before"), After: rapid.IntRange(1, 3).Draw(t, "after")}
 	yamlDoc := c.Kind == "yaml"
 	if yamlDoc {
@@ -1334,6 +1336,24 @@ func genC17(t *rapid.T) c17Case {
 			m.Failing = true
 			m.Comps = comps
 			used = append(used, comps)
+		case kind == 4 && (node.K == "obj" || node.K == "arr") && len(node.Kids) > 0 && !yamlDoc: // one Any listing a path and then a descendant of it
+			child := path + ".0"
+			if node.K == "obj" {
+				if node.Keys[0] == "" || escapeGJSON(node.Keys[0]) != node.Keys[0] {
+					child = ""
+				} else {
+					child = path + "." + node.Keys[0]
+				}
+			}
+			if child == "" {
+				m.Spec = MatcherSpec{Kind: "custom", Paths: []string{path}, ReturnErr: "custom callback says no"}
+			} else {
+				m.Spec = MatcherSpec{Kind: "any", Paths: []string{path, child}}
+				m.FailPath = child // after the parent was replaced by the placeholder the descendant does not exist any more
+			}
+			m.Failing = true
+			m.Comps = comps
+			used = append(used, comps)
 		case kind < 6: // custom error
 			m.Spec = MatcherSpec{Kind: "custom", Paths: []string{path}, ReturnErr: "custom callback says no"}
 			m.Failing = true
@@ -1408,7 +1428,9 @@ func checkC17(c c17Case) error {
 		for i := 1; i <= c.Before; i++ {
 			filler(i).invoke(cfg, ft)
 		}
-		filler(1000).invoke(cfg, ft) // slot k holds something else
+		if !(c.NoExisting && c.ModeKind != "update_existing") {
+			filler(1000).invoke(cfg, ft) // slot k holds something else
+		}
 		ft.finish()
 	}
 	mode := Mode{}
@@ -1446,7 +1468,11 @@ func checkC17(c c17Case) error {
 			if !m.Failing {
 				continue
 			}
-			want := fmt.Sprintf(`match.%s("%s")`, m.Name, m.Spec.Paths[0])
+			fp := m.Spec.Paths[0]
+			if m.FailPath != "" {
+				fp = m.FailPath
+			}
+			want := fmt.Sprintf(`match.%s("%s")`, m.Name, fp)
 			if !strings.Contains(r.Errors[0], want) {
 				return fmt.Errorf("the failure does not name %s; error text %q", want, clip(r.Errors[0]))
 			}
